@@ -26,6 +26,63 @@ def regenerate(ctx: fw.Ctx) -> dict:
     return rep
 
 
+def start_code_coverage():
+    """statement coverage of /repo/tumfl by everything this check executes (oracle streams and T2 streams): how much of the code the correspondence reaches"""
+    if os.environ.get("VERIF_NO_COVERAGE"):
+        return None
+    try:
+        os.environ.setdefault("COVERAGE_CORE", "sysmon")
+        import coverage
+        from common import REPO
+        cov = coverage.Coverage(data_file=None, source=[str(REPO / "tumfl")], config_file=False)
+        cov.start()
+        return cov
+    except Exception:  # noqa: BLE001
+        return None
+
+
+def stop_code_coverage(cov):
+    if cov is None:
+        return {"measured": False}
+    try:
+        cov.stop()
+        from common import REPO
+        out = {"measured": True, "files": {}}
+        tot_s = tot_m = 0
+        import ast as pyast
+
+        def body_lines(path: str) -> set[int]:
+            """lines of statements inside function bodies (module- and class-level lines run at import time, before the measurement starts)"""
+            lines: set[int] = set()
+            tree = pyast.parse(Path(path).read_text())
+            for fn in pyast.walk(tree):
+                if isinstance(fn, (pyast.FunctionDef, pyast.AsyncFunctionDef)):
+                    for st in fn.body:
+                        for n in pyast.walk(st):
+                            if isinstance(n, pyast.stmt) and not isinstance(n, (pyast.FunctionDef, pyast.AsyncFunctionDef, pyast.ClassDef)):
+                                lines.add(n.lineno)
+            return lines
+
+        for f in sorted(cov.get_data().measured_files()):
+            _, stmts, _, missing, _ = cov.analysis2(f)
+            rel = str(Path(f).relative_to(REPO))
+            inside = body_lines(f)
+            stmts = [x for x in stmts if x in inside]
+            missing = [x for x in missing if x in inside]
+            if len(stmts) == 0:
+                continue
+            tot_s += len(stmts)
+            tot_m += len(missing)
+            if missing or rel.count("/") <= 1:
+                out["files"][rel] = {"statements": len(stmts), "missed": len(missing), "missed_lines": missing}
+        out["statements"] = tot_s
+        out["executed"] = tot_s - tot_m
+        out["rule"] = "statements inside function bodies of /repo/tumfl executed by this check's streams (oracle + T2), measured with coverage.py"
+        return out
+    except Exception as e:  # noqa: BLE001
+        return {"measured": False, "error": str(e)[:200]}
+
+
 def main() -> int:
     ap = argparse.ArgumentParser()
     ap.add_argument("prop")
@@ -56,10 +113,13 @@ def main() -> int:
         if not DRIVER.exists():
             # the driver itself does not build: nothing dynamic can run against the Spec
             raise fw.InfraError("Lean driver does not build:\n" + ctx.lean.log[-3000:])
+        cov = start_code_coverage()
         try:
             spec["run"](ctx)
         except fw.EnoughEvidence as e:
             print(f"note: {e}", file=sys.stderr)
+        finally:
+            ctx.code_coverage = stop_code_coverage(cov)
         return fw.finish(ctx, spec)
     except fw.InfraError as e:
         print(f"INFRASTRUCTURE FAILURE {a.prop}: {e}", file=sys.stderr)
